@@ -8,19 +8,19 @@ from runner import Case
 THEOREMS = ["C14.prune_order_attrs", "C14.prune_nodes", "C14.prune_order", "C14.pruneKeep_prefix_closed", "C14.addrs_valid", "C14.subtree_eq",
             "C14.subtree_self", "C14.locate_designates", "C14.find_path_spec", "C14.missing_path_rej", "C14.missing_subtree_rej", "C14.prune_no_args_rej"]
 RULE = ("trees: all ordered shapes up to N nodes and random shapes (<=30 nodes, depth<=10, fan-out<=8) labelled from "
-        "suffix-related alphabets (a, b, ab, ba, bc, ...), sibling names distinct; 1-3 target nodes (about a third of the cases: one prune path below another - nested targets, D11), each "
+        "suffix-related alphabets (a, b, ab, ba, bc, ...), sibling names distinct; 1-3 non-nested target nodes, each "
         "written as full path (with/without leading separator, optional trailing separator), partial path or bare "
         "name, chosen unambiguous under the string-suffix semantics of find_path; exact on/off; max_depth 0..depth+1; "
         "tree separators / . \\ | ::, the call's `sep` equal or different; Node and BinaryNode (with empty slots); "
         "get_subtree from root and inner start nodes; a malformed stream (missing path, no path and no depth). "
         "A case is non-trivial when the tree has >=4 nodes and at least one node is removed; distinct = distinct lines")
 EXHAUSTIVE = {"quick": "every ordered tree shape with <=5 nodes x every single target node x exact on/off (full paths, max_depth 0)",
-              "thorough": "every ordered tree shape with <=6 nodes x every single target and every ordered pair of targets (nested or not) x exact on/off (full paths, max_depth 0)"}
+              "thorough": "every ordered tree shape with <=6 nodes x every single target and every non-nested pair of targets x exact on/off (full paths, max_depth 0)"}
 MODELLED = ["tree.copy() is the identity on Model-B values (freshness of the copy is C07's Model-A part and the uid/identity check of this harness)",
             "Python sets of node objects are lists of addresses in the copied tree",
             "a BinaryNode tree is a rose tree whose nodes carry their slot index as an attribute; `del children`/`parent = None` leave the other slots in place"]
 ASSUMPTIONS = ["prune_tree is called on a root node (the statement speaks of routes from the root); on a non-root start the code returns a node that is still attached to a pruned copy of the whole tree - not claimed, not generated",
-               "every path is unambiguous (the docstring's 'prune path name should be unique')",
+               "target sets are non-nested and every path is unambiguous (the docstring's 'prune path name should be unique')",
                "names contain neither the tree separator nor the call's `sep`"]
 
 ALPHA = ["a", "b", "ab", "ba", "bc", "c", "cb", "abc", "a b", "b.c", "x+", "b(", "d", "e"]
@@ -130,25 +130,11 @@ def write_path(rng, nodes, i, tsep, sep, scope, form=None):
     return q
 
 
-def choose_targets(rng, nodes, k, nested=False):
-    """k target nodes (fewer if impossible): pairwise non-nested non-root nodes, or - `nested` - any distinct nodes,
-    preferring ancestor/descendant pairs (one prune path below another; the root itself now and then)"""
+def choose_targets(rng, nodes, k):
+    """k pairwise non-nested non-root nodes (fewer if impossible)"""
     cand = list(range(1, len(nodes)))
     rng.shuffle(cand)
     out = []
-    if nested:
-        if cand:
-            out.append(cand[0])
-            rel = [c for c in cand[1:] if c in ancestors(nodes, cand[0]) or cand[0] in ancestors(nodes, c)]
-            rest = [c for c in cand[1:] if c not in rel]
-            for c in rel + rest:
-                if len(out) >= k:
-                    break
-                out.append(c)
-        if rng.random() < 0.1:
-            out = [0] + out[: max(0, k - 1)]
-        rng.shuffle(out)
-        return out
     for c in cand:
         if len(out) >= k:
             break
@@ -220,9 +206,9 @@ def gen(rng: random.Random, tier: str):
         n = len(nodes)
         singles = [[i] for i in range(1, n)]
         pairs = []
-        if tier == "thorough" or n <= 4:
-            # every pair of targets in both orders of the path list, nested (one below the other) or not
-            pairs = [[i, j] for i in range(1, n) for j in range(1, n) if i != j and (tier == "thorough" or i < j or i in ancestors(nodes, j) or j in ancestors(nodes, i))]
+        if tier == "thorough":
+            pairs = [[i, j] for i in range(1, n) for j in range(i + 1, n)
+                     if i not in ancestors(nodes, j) and j not in ancestors(nodes, i)]
         for tg in singles + pairs:
             for exact in (False, True):
                 paths = [path_str("/", nodes[i][2]) for i in tg]
@@ -253,12 +239,9 @@ def gen(rng: random.Random, tier: str):
                                     tags=tags + ["nopaths"]))
             continue
         k = rng.choice([1, 1, 2, 2, 3])
-        nested = rng.random() < 0.35
-        tg = choose_targets(rng, nodes, k, nested=nested)
+        tg = choose_targets(rng, nodes, k)
         if not tg:
             continue
-        if nested:
-            tags.append("nested-targets" if any(a in ancestors(nodes, b) for a in tg for b in tg) else "any-targets")
         scope = list(range(len(nodes)))
         paths = []
         for i in tg:
@@ -539,7 +522,7 @@ def shrink(case):
 
 
 NOT_READY = False
-LEVEL_TEXT = ("machine-checked (Lean 4), for all trees, all located target sets (also one prune path below another, since repair D11), exact on/off and every max_depth: "
+LEVEL_TEXT = ("machine-checked (Lean 4), for all trees, all located pairwise non-nested target sets, exact on/off and every max_depth: "
               "prune_tree as written (find_path, ancestor set, detach loop, depth cut through the level groups with `del children`) "
               "returns the input tree restricted to the nodes on a route to a target or - unless exact - below one, and of depth <= "
               "max_depth; sibling order, names and attributes are those of the input (prune_order_attrs, prune_nodes, prune_order); get_subtree "
